@@ -60,18 +60,23 @@ def QueryDeviceTypes(addr):
     r = yield QueryDeviceType(addr)
     if r.raw_value is None:
         raise DALISequenceError("No response to initial query")
+    if r.raw_value.error:
+        raise DALISequenceError("Framing error in response to initial query")
     if r.raw_value.as_integer < 254:
         return [r.raw_value.as_integer]
     if r.raw_value.as_integer == 254:
         return []
     assert r.raw_value.as_integer == 255
-    last_seen = 0
+    last_seen = -1
     result = []
     while True:
         r = yield QueryNextDeviceType(addr)
         if not r.raw_value:
             raise DALISequenceError(
                 "No response to QueryNextDeviceType()")
+        if r.raw_value.error:
+            raise DALISequenceError(
+                "Framing error in response to QueryNextDeviceType()")
         if r.raw_value.as_integer == 254:
             if len(result) == 0:
                 raise DALISequenceError(
@@ -81,7 +86,8 @@ def QueryDeviceTypes(addr):
             # The gear is required to return device types in
             # ascending order, without repeats
             raise DALISequenceError("Device type received out of order")
-        result.append(r.raw_value.as_integer)
+        last_seen = r.raw_value.as_integer
+        result.append(last_seen)
 
 
 def QueryGroups(addr):
